@@ -411,7 +411,14 @@ def run_impl(c):
                 arg = float(c["fs"][0]) if c["single"] else np.array(c["fs"], dtype=np.float64)
                 r = pl.point_along_path(arg)
                 shape = list(np.shape(r))
-                return {"pts": np.asarray(r).reshape(-1, 3).tolist(), "shape": shape}
+                out = {"pts": np.asarray(r).reshape(-1, 3).tolist(), "shape": shape}
+                if not c["single"]:
+                    # the stacked form hands the callee the caller's own float64 array: it must come back unchanged
+                    # and the same array must give the same points again
+                    out["args_unchanged"] = bool(np.array_equal(arg, np.array(c["fs"], dtype=np.float64)))
+                    r2 = call_impl(lambda: np.asarray(pl.point_along_path(arg)).reshape(-1, 3).tolist())
+                    out["same_again"] = bool(r2 == out["pts"] or _both_nan_equal(r2, out["pts"]))
+                return out
             if c["kind"].startswith("subdivide_by_length"):
                 mask = None if c["mask"] is None else np.array(c["mask"], dtype=bool)
                 new, idx = pl.subdivided_by_length(c["max_length"], edges_to_subdivide=mask, ret_indices=True)
@@ -472,6 +479,14 @@ def coq_case(c, o):
 
 
 # ---------------------------------------------------------------------------------------------------------
+def _both_nan_equal(a, b):
+    """row lists equal, NaN matching NaN"""
+    try:
+        return bool(np.array_equal(np.asarray(a, dtype=np.float64), np.asarray(b, dtype=np.float64), equal_nan=True))
+    except Exception:  # noqa
+        return False
+
+
 F1_CLOSED = "point_along_path(1) on a closed polyline is not the first vertex"
 F1_NAN = "point_along_path returned NaN"
 BISECT_EMPTY = "with_segments_bisected(empty index set) raised ZeroDivisionError"
@@ -668,6 +683,10 @@ def oracle(c, o):
         return None if not c["fs"] else "point_along_path answered on a polyline without any segment"
     if o["shape"] != ([3] if c["single"] else [len(c["fs"]), 3]):
         return "result shape %r" % (o["shape"],)
+    if o.get("args_unchanged") is False:
+        return "point_along_path modified the array of fractions it was given"
+    if o.get("same_again") is False:
+        return "point_along_path gives different points when called again with the same array of fractions"
     total = sum(math.dist(a, b) for a, b in _segs(v, closed))
     mag = _mag(v)
     for f, p in zip(c["fs"], o["pts"]):
